@@ -5,7 +5,7 @@ from props._fa_common import TRUSTED, ASSUMPTIONS, TECHNIQUE
 
 PROP = "C03"
 LEVEL = "proof"
-THEOREMS = {"Properties.C03": ["C03_reverse", "C03_intersection", "C03_complement"]}
+THEOREMS = {"Properties.C03": ["C03_reverse", "C03_intersection", "C03_complement", "C03_union_ref", "C03_concat_ref", "C03_star_ref"]}
 LEVEL_TEXT = ("Coq theorems (no axioms): reverse, the product construction and complement-after-determinisation compute exactly the mirror image, "
               "intersection and complement for all automata; difference is their composition. Every automaton pyformlang returns is compared with the "
               "model's construction by the proved-exact equivalence checker. union/concatenate/kleene_star (implemented through to_regex) are covered "
@@ -24,8 +24,15 @@ def generate(ctx):
     for i in range(n):
         names = rng.choice(["plain", "plain", "int", "adv"])
         a = falib.rand_fa(rng, names=names, max_states=4)
-        k = i % 6
-        if k == 0:
+        k = i % 9
+        if k >= 6:
+            a = falib.rand_fa(rng, names=rng.choice(["plain", "int"]), max_states=3)
+            if k == 8:
+                cases.append({"op": "kleene_star", "fa": a})
+            else:
+                b = falib.rand_fa(rng, names=rng.choice(["plain", "int"]), max_states=3)
+                cases.append({"op": ["union", "concatenate"][k - 6], "fa": a, "fb": b})
+        elif k == 0:
             cases.append({"op": "reverse", "fa": a, "operator": rng.random() < 0.3})
         elif k == 1:
             cases.append({"op": "get_complement", "fa": a, "operator": rng.random() < 0.3})
